@@ -47,8 +47,20 @@ class Case:
 
 def _pixels(rng, n, style=None):
     """n payload bytes: runs, noise, or a mixture (so that compressors have work)."""
-    style = style or rng.choice(("runs", "noise", "noise", "mixed", "mixed", "flat"))
+    style = style or rng.choice(("runs", "noise", "noise", "mixed", "mixed", "flat", "sentinel"))
     out = bytearray()
+    if style == "sentinel":
+        # bytes that text-mode, strip/split or sentinel-terminated loops treat specially
+        sent = (0x00, 0x0A, 0x0D, 0x1A, 0x20, 0xFF, 0x80)
+        body = bytearray(rng.choice(sent) if rng.random() < 0.7 else rng.getrandbits(8) for _ in range(n))
+        if n:
+            body[-1] = rng.choice(sent)
+            body[0] = rng.choice(sent)
+        for k in range(rng.randint(0, 3)):           # whole stretches of one sentinel
+            a = rng.randrange(n) if n else 0
+            b = min(n, a + rng.choice((8, 40, 80, 160)))
+            body[a:b] = bytes([rng.choice((0x00, 0xFF, 0x0A))]) * (b - a)
+        return bytes(body)
     if style == "flat":
         return bytes([rng.randrange(256)]) * n
     if style == "noise":
@@ -122,7 +134,7 @@ def gen_max(rng, small=True, w8_only=True, with_opts=True):
             rows = (rng.choice((32760, 32768, 40000, 65528)) * 8) // w
         if not w8_only and rng.random() < 0.35:
             w = max(1, w - rng.randint(1, 7))
-        s = rng.choice((0, 0, 0, 7, rng.randint(0, 40)))
+        s = rng.choice((0, 0, 0, 5, 7, rng.randint(0, 40)))
         use_r = rng.random() < 0.4
         ign = rng.random() < 0.25
     rowb = (w + 7) // 8
@@ -198,8 +210,10 @@ def gen_pix(rng, small=True):
 # ------------------------------------------------------------------------------ MGE
 def mge_header(rng, raw, rgb):
     pal = _palette(rng) if rgb else bytes(rng.randint(0, 63) for _ in range(16))
-    tl = rng.randint(0, 29)
-    title = bytes(rng.choice(b"ABCDEFGHIJ klmnop0123") for _ in range(tl))
+    tl = rng.choice((0, 1, 29, rng.randint(0, 29)))
+    alphabet = rng.choice((b"ABCDEFGHIJ klmnop0123", b"   ", b"A\n\r\t \x1a", bytes(range(0x80, 0x100)) + b"\xe9 ",
+                           b"ABCDEFGHIJ klmnop0123"))
+    title = bytes(rng.choice(alphabet) for _ in range(tl))
     title = title + b"\0" + bytes(rng.getrandbits(8) for _ in range(29 - tl))
     hdr = bytes([0]) + pal + bytes([0 if rgb else rng.randint(1, 255)]) + \
         bytes([rng.randint(1, 255) if raw else 0]) + title + \
